@@ -1297,7 +1297,7 @@ func c8reuse(c *Ctx) {
 			c.Violation("reused-list-is-walked", "short-circuit consumers of a let-bound lazy list did not return", replay)
 		case rc.wc.outcome != "OK i3":
 			c.Violation("reuse-wrong-result", "unexpected outcome, want i3", replay)
-		case rc.wc.ticks > rc.limit:
+		case c8overDemand(c, rc.wc, rc.limit):
 			c.Violation("reused-list-demand-beyond-prefix", fmt.Sprintf("the closures of a let-bound lazy list consumed three times were evaluated %d times, more than the three demanded prefixes allow (%d)", rc.wc.ticks, rc.limit), replay)
 		}
 	}
@@ -1327,6 +1327,18 @@ func c8listTilde(c *Ctx) {
 					wc := &workerCase{id: fmt.Sprintf("lt%d", len(cases)), a: 0, flags: "opt", src: lhs.src + " ~ numbers(" + n + ")" + st}
 					cases = append(cases, &tcase{wc: wc, limit: 2 * (lhs.last + 1 + 4), want: "OK b1"})
 					wcs = append(wcs, wc)
+					// the answer is fixed with the last looked-for item: an element BEHIND it is never asked for, so an error item
+					// directly behind it (distance 1, 2, 3) cannot show
+					if lhs.last >= 0 && st == ".map(x -> tick(x))" {
+						for d := 1; d <= 3; d++ {
+							for _, via := range []string{"", ".skip(0)", ".accept(x -> x >= 0)"} {
+								wc := &workerCase{id: fmt.Sprintf("lt%d", len(cases)), a: 0, flags: "opt",
+									src: fmt.Sprintf("%s ~ numbers(%s).map(x -> if x = %d then throw(\"behind the decisive item\") else tick(x))%s", lhs.src, n, lhs.last+d, via)}
+								cases = append(cases, &tcase{wc: wc, limit: 2 * (lhs.last + 1 + 4), want: "OK b1"})
+								wcs = append(wcs, wc)
+							}
+						}
+					}
 				}
 			}
 		}
@@ -1341,7 +1353,7 @@ func c8listTilde(c *Ctx) {
 			c.Violation("list-tilde-walks-the-list", "`[..] ~ list` did not return on a list of 10^9 elements although all items occur at its head", replay)
 		case tc.wc.outcome != tc.want:
 			c.Violation("list-tilde-wrong-result", "unexpected outcome, want "+tc.want, replay)
-		case tc.wc.ticks > tc.limit:
+		case c8overDemand(c, tc.wc, tc.limit):
 			c.Violation("list-tilde-demand-beyond-decisive", fmt.Sprintf("`[..] ~ list` evaluated the closures of the right list %d times, the last looked-for item allows %d", tc.wc.ticks, tc.limit), replay)
 		}
 	}
@@ -1349,6 +1361,81 @@ func c8listTilde(c *Ctx) {
 
 // c8lazyWrappers: language constructs a lazy pipeline passes through on its way to the consumer (try/catch, if, switch,
 // let, map field, list element, closure argument and result, replaceList) hand it on unevaluated
+// c8overDemand: a sequential stage whose first items happen to take long (a busy machine) switches to its parallel mode, which
+// reads ahead by an amount that depends on timing. A demand figure above the expected bound is therefore confirmed by running
+// the case alone, twice: a change that really evaluates more does so every time; read-ahead under load does not survive a
+// quiet re-run. A figure beyond every read-ahead (ten times the bound and 500 more) needs no confirmation.
+func c8overDemand(c *Ctx, wc *workerCase, limit int) bool {
+	if wc.ticks <= limit {
+		return false
+	}
+	if wc.ticks > 10*limit+500 {
+		return true
+	}
+	for i := 0; i < 2; i++ {
+		again := &workerCase{id: wc.id + "r", a: wc.a, flags: wc.flags, src: wc.src}
+		runWorkerBatch([]*workerCase{again}, false, 4, 60*time.Second)
+		if again.outcome == wc.outcome && again.ticks <= limit {
+			c.Count("demand-above-bound-not-confirmed-alone")
+			return false
+		}
+		if again.ticks > wc.ticks {
+			wc.ticks = again.ticks
+		}
+	}
+	return true
+}
+
+// c8argumentLists: a list handed to a stage as an ARGUMENT (cross, merge, `+`, zip-like combine of two lists) is as lazy as the
+// receiver: building the stage evaluates nothing, a short-circuit consumer demands only the prefix it needs, and an error
+// item behind that prefix does not show
+func c8argumentLists(c *Ctx) {
+	type acase struct {
+		wc    *workerCase
+		limit int
+	}
+	var cases []*acase
+	var wcs []*workerCase
+	add := func(src string, limit int) {
+		wc := &workerCase{id: fmt.Sprintf("al%d", len(cases)), a: 0, flags: "opt", src: src}
+		cases = append(cases, &acase{wc: wc, limit: limit})
+		wcs = append(wcs, wc)
+	}
+	for _, n := range []string{"50", "1000000000"} {
+		arg := "numbers(" + n + ").map(x -> tick(x))"
+		argErr := "numbers(" + n + ").map(x -> if x = 7 then throw(\"behind the demand\") else tick(x))"
+		for _, b := range []string{arg, argErr} {
+			// built, never consumed
+			add("let p = numbers(3).cross("+b+", (u, v) -> u + v); 1", 0)
+			add("let p = numbers(3).merge("+b+", (u, v) -> u < v); 1", 0)
+			add("let p = numbers(3) + "+b+"; 1", 0)
+			add("let p = [numbers(3).cross("+b+", (u, v) -> u + v)]; p.size()", 0)
+			// short-circuit consumers
+			add("numbers(3).cross("+b+", (u, v) -> u * 100 + v).first()", 1+4)
+			add("numbers(3).cross("+b+", (u, v) -> u * 100 + v).top(3).size()", 3+4)
+			add("numbers(3).cross("+b+", (u, v) -> u * 100 + v).present(e -> e = 2)", 3+4)
+			// (merge reads its sources ahead through channels: the bound is generous, the error item sits at 7 all the same)
+			add("numbers(3).merge("+b+", (u, v) -> u < v).top(4).size()", 4+40)
+			add("(numbers(3) + "+b+").top(5).size()", 2+4)
+			add("(numbers(3) + "+b+").skip(3).first()", 1+4)
+		}
+	}
+	parallelBatches(wcs, 12, false, 4, 60*time.Second)
+	for _, ac := range cases {
+		c.Case("argument-list|"+ac.wc.src, true)
+		c.Count("argument-list")
+		replay := map[string]any{"program": ac.wc.src, "outcome": ac.wc.outcome, "closure_evaluations": ac.wc.ticks, "limit": ac.limit}
+		switch {
+		case ac.wc.outcome == "TIMEOUT" || ac.wc.outcome == "CRASH":
+			c.Violation("argument-list-walked", "a lazy list handed to a stage as an argument was walked to its end", replay)
+		case !strings.HasPrefix(ac.wc.outcome, "OK "):
+			c.Violation("argument-list-error-behind-demand", "an error item of an argument list behind the demanded prefix shows (or the program fails otherwise): "+ac.wc.outcome, replay)
+		case c8overDemand(c, ac.wc, ac.limit):
+			c.Violation("argument-list-evaluated", fmt.Sprintf("the closures of an argument list were evaluated %d times, the consumer allows %d", ac.wc.ticks, ac.limit), replay)
+		}
+	}
+}
+
 func c8lazyWrappers(c *Ctx) {
 	type wcase struct {
 		wc    *workerCase
@@ -1388,7 +1475,7 @@ func c8lazyWrappers(c *Ctx) {
 			c.Violation("construct-walks-the-list", "a lazy pipeline handed through a language construct was walked to its end", replay)
 		case !strings.HasPrefix(wcse.wc.outcome, "OK "):
 			c.Violation("lazy-wrapper-wrong-result", "unexpected outcome", replay)
-		case wcse.wc.ticks > wcse.limit:
+		case c8overDemand(c, wcse.wc, wcse.limit):
 			c.Violation("construct-evaluates-the-list", fmt.Sprintf("a lazy pipeline handed through a language construct had its closures evaluated %d times, the consumer demands %d", wcse.wc.ticks, wcse.limit-4), replay)
 		}
 	}
@@ -1400,6 +1487,7 @@ func runC08(c *Ctx) {
 		c8reuse(c)
 		c8listTilde(c)
 		c8lazyWrappers(c)
+		c8argumentLists(c)
 	}
 	c.rule = "pipelines source (numbers(n) | host-provided lazy list | list literal | a+b) -> 0..3 lazy stages (map, accept, top, skip, combine, combine3, combineN, iir, iirCombine, number, compact; a counting host function inside every closure) -> short-circuit consumer (first, single, top(v).size, top(v) collected, present, indexWhere, ~, multiUse of 1..3 of them), evaluated by the real code in a child process for the decisive element at positions k in 0..200, sources of the demanded length, +1, 10^3/2*10^4 and 10^11, and a throwing element before/at/behind the decisive one in every closure and in the source; every evaluation is one case; non-trivial = at least one lazy stage between source and consumer and at least two source elements pulled (k >= 1)"
 	c.assume = append(c.assume,
